@@ -125,7 +125,7 @@ def gen_case(rng, root):
             others = [k for k in pstep["keys"] if k is not spec["k"]] or [k for k in W.pool() if k is not spec["k"]]
             sub.owners = [rng.choice(others)]
         elif defect == "expired":
-            sub.expires = datetime.datetime(2029, 1, 1, tzinfo=datetime.timezone.utc)
+            sub.expires = vcommon.expired_instant(rng)
         elif defect == "edited":
             spec["tamper"] = "content_fixed"
         elif defect == "sublinks_missing":
@@ -162,6 +162,7 @@ def one_case(rng, res):
         ch, desc = gen_case(rng, root)
         scn = scen.build(ch, root, rng)
         scn.params = vcommon.pick_params(rng, desc)
+        vcommon.pick_tz(rng, scn, desc)
         i, m, _ = vcommon.run_case(scn, desc, res, desc["n_sublayouts"] > 0)
         res.count("defect_%s" % desc["defect"]); res.count("depth_%d" % desc["depth"])
         if vcommon.accepted(i):
